@@ -52,6 +52,8 @@ def plan(tier, seed):
         specs.append(dict(name="entry-%d" % p, mode="interp", what="entry", n=n, seed=[seed, 18, p]))
     for p, n in enumerate(common.split_counts(24 if q else 240, 12 if q else 16)):
         specs.append(dict(name="e2e-%d" % p, mode="interp", what="e2e", n=n, seed=[seed, 188, p]))
+    specs.append(dict(name="kernel-interp", mode="interp", what="kernel", n=600 if q else 6000, seed=[seed, 1888, 0]))
+    specs.append(dict(name="kernel-jit", mode="jit", what="kernel", n=300 if q else 3000, seed=[seed, 1888, 1]))
     if not q:
         for p in range(2):
             specs.append(dict(name="e2e-jit-%d" % p, mode="jit", what="e2e", n=12, seed=[seed, 189, p]))
@@ -133,8 +135,7 @@ def run_e2e(spec, res):
             value, forms = LAM_CLASSES[rot % len(LAM_CLASSES)]
         elif which == "beta":
             value, forms = BETA_CLASSES[rot % len(BETA_CLASSES)]
-            if base["front"] == "joint":
-                forms = [f for f in forms if not f.startswith("vector")]
+            # (the joint front end hands the caller's vector to the algorithm unchanged, so the vector forms are comparable there too)
         else:
             value, forms = EPS_CLASSES[rot % len(EPS_CLASSES)]
         base["beta"] = dict(form="float", value=float(BETAS_DEFAULT[i % len(BETAS_DEFAULT)]))
@@ -169,15 +170,47 @@ def check_e2e(res, case):
     res.count("e2e_class:" + case["which"])
 
 
+def run_kernel(spec, res):
+    """Labelling step: a scalar switching cost and the vector filled with it must give the very same labels and cost, exact
+    stay-versus-jump ties included (integer-valued tables)."""
+    from fast_ticc import cluster_label_assignment as cla
+    rng = np.random.default_rng(spec["seed"])
+    for i in range(spec["n"]):
+        T, K = int(rng.integers(2, 40)), int(rng.integers(2, 6))
+        C = rng.integers(0, 4, size=(T, K)).astype(np.float64) if i % 4 else rng.normal(size=(T, K))
+        b = float(rng.integers(0, 4))
+        case = dict(what="kernel", rng=[int(v) for v in spec["seed"]] + [i], T=T, K=K)
+        outs = {}
+        for form, beta in (("float", b), ("int", int(b)), ("np.float64", np.float64(b)), ("vector_const", np.full(T, b)),
+                           ("vector_const_int", np.full(T, int(b)))):
+            try:
+                labels, cost = cla.assign_point_cluster_labels(label_assignment_cost=C.copy(), label_switching_cost=beta)
+                outs[form] = "%s|%r" % (",".join(str(int(v)) for v in labels), float(cost))
+            except Exception as e:
+                outs[form] = "EXC:%s" % type(e).__name__
+            res.evaluations += 1
+        if len(set(outs.values())) > 1:
+            ref = outs["float"]
+            res.violation("labelling step: scalar and filled-vector switching cost %g disagree on a %dx%d table: %s" % (
+                b, T, K, {f: v[:60] for f, v in outs.items() if v != ref}), dict(case, table=C, beta=b))
+        res.count("kernel_tables_compared")
+        res.nontriv(common.h(C, b))
+
+
 def run_shard(spec, res):
     res.counters["numba_state"] = str(common.numba_state())
-    if spec["what"] == "entry":
+    if spec["what"] == "kernel":
+        run_kernel(spec, res)
+    elif spec["what"] == "entry":
         run_entry(spec, res)
     else:
         run_e2e(spec, res)
 
 
 def replay(case, res):
+    if case["what"] == "kernel":
+        run_kernel(dict(seed=case["rng"][:-1], n=case["rng"][-1] + 1), res)
+        return
     if case["what"] == "entry":
         from fast_ticc import admm
         check_entry(res, admm, case)
@@ -191,6 +224,8 @@ def finalize(merged, tier):
     c = merged["counters"]
     if c.get("classes_compared", 0) < (40 if q else 500):
         out["inconclusive"].append("only %d equivalence classes had >=2 completed forms" % c.get("classes_compared", 0))
+    if c.get("kernel_tables_compared", 0) < (500 if q else 5000):
+        out["inconclusive"].append("kernel-level scalar/vector comparison ran only %d times" % c.get("kernel_tables_compared", 0))
     for w in ("lam", "beta", "eps"):
         if c.get("e2e_class:" + w, 0) < 2:
             out["inconclusive"].append("end-to-end class %s exercised %d times" % (w, c.get("e2e_class:" + w, 0)))
